@@ -337,6 +337,10 @@ func findIndexByFilteringField(scanNode *scanNode) immutable.Option[client.Index
 		col := scanNode.col.Version()
 		conditions := scanNode.filter.ExternalConditions
 		filter.TraverseFields(conditions, func(path []string, val any) bool {
+			if len(path) == 0 {
+				// an operator that is not applied to any field
+				return true
+			}
 			for _, field := range scanNode.col.Schema().Fields {
 				if field.Name != path[0] {
 					continue
